@@ -934,6 +934,39 @@ MANIFEST = {
                  "builder ingredients/configuration/adapter set, formulate()), T2 correspondence on random histories with the real builders, "
                  "fresh-process / PYTHONHASHSEED sweep as independent oracle",
     "design_ref": "DESIGN.md §3 C06",
-    "text": "",
-    "level_note": "",
+    "text": (
+        "Proof (11 theorems, all unbounded in the history; none partial). Model/C06Purity.lean is a state machine over a process-global heap: "
+        "every functools.cache / lru_cache of the package (10, listed as CacheId; found by grep and re-found by introspection on every run) holds its "
+        "result by reference, builders carry ingredients, their own and the user-intended configuration, and the adapter's topology SET with an explicit "
+        "iteration order; formulate() is modelled line by line where it touches shared state (reset, registration of combinatorics topologies, stable / "
+        "scalar masses, the in-place update of the dict returned by define_symbols, update, the sorting converters with the modelled natural_sorting). "
+        "C06_pure: in the sound variant, for every world with pairwise-consistent topology maps (C07's no-collision premise) and distinct symbol names, "
+        "and for every history (any builders, reactions, interleavings of configure / register_topology / formulate / rejected assignments / cache "
+        "evictions, ANY iteration order of the topology set after every change = any hash seed or registration order) every formulate returns "
+        "F(reaction, user configuration), F mentioning neither heap nor history; proof by the invariant 'every cache entry is the pure value of its key' "
+        "(C06_cache_entries_stay_pure) by induction over the history. C06_same_configuration_same_model: equal (reaction, configuration) give equal models "
+        "from any two reachable states (other history, other process). C06_order / C06_order_linear: merging pairwise-consistent maps and sorting with the "
+        "key (natural_sorting(name), name) is independent of the merge order, with no 'no ties' premise (nameLe is proved to be a linear order); "
+        "C06_order_needs_tie_break shows the statement is false for the plain natural sort (m_1 / m_01). Every unsound switch has a kernel-checked, "
+        "replayable witness: C06_witness_alias(+_not_pure) (memoised DPD dict aliased, before b218b43), C06_witness_noreset, C06_witness_shared, "
+        "C06_witness_ties (before 043d8fb). Tie on every run: the variant is inferred by replaying the witness histories on the real code in a fresh "
+        "process; seeded random + scripted histories (two builders sharing a reaction object, third builder on another reaction, revisits of earlier "
+        "configurations, malformed assignments, cache_clear, register/permutate) run on the real builders in the checking process and, operation by "
+        "operation, through the Lean model whose world tables (alignment symbols and the mass symbols they contain, per-topology maps, names, "
+        "combinatorics topologies) are re-extracted from the working tree: error outcomes, the ORDERED key list of kinematic_variables, the partition into "
+        "equal outputs and purity w.r.t. fresh-process models must agree; natural_sorting tokens / sorted orders / merge results are compared with the "
+        "real functions. Independent oracle: all srepr digests (six attributes, key order included) observed for one (reaction, configuration) in the "
+        "checking process, in fresh processes and under several PYTHONHASHSEEDs (chosen to cover every observed iteration order of the hash-ordered "
+        "containers; thorough adds unset/0/1/4242, own processes, schedules of two interleaved builders) must be equal. Bounded: the histories use four "
+        "3-body reactions (DPD, axis-angle, identical particles, half-integer spins); 4-body topologies only in the merge comparison."
+    ),
+    "level_note": (
+        "Trusted: Lean 4.33 kernel (axioms propext, Classical.choice, Quot.sound; thorough re-checks with leanchecker); the hand-written model "
+        "(import-free; compared with the real code on every run as described). Executed, not modelled (World fields of the theorems): amplitude / "
+        "Wigner-D / angle-formula generation, qrules, sympy (incl. its own global cache), CPython dict/set/hash semantics; the premise "
+        "'topology maps pairwise consistent' is C07's claim (known finding for permuted 4-body topologies) and 'distinct symbols have distinct names' is "
+        "assumed. Digests are 64-bit sha1 prefixes of srepr strings. natural_sorting model assumes text pieces are not float literals (inf/nan) and "
+        "numbers have <= 15 significant digits; set-of-int iteration (stable ids) is modelled as sorted. The checking process re-executes itself "
+        "once with a PYTHONHASHSEED derived from VERIF_SEED so that runs and replays are reproducible."
+    ),
 }
